@@ -34,6 +34,8 @@ CLAIMED = {
          'Decides that each protection mechanism is applied wherever it is needed: the drop callback reaches its socket only through the resettable forwarder, which close/destructor detach and move re-points; timer completions return on abort before touching members; every m_channel dereference is guarded, in a guarded helper, or tabled with its invariant; move constructors transfer every field; the catch-all works from copies; timer removal searches the whole equal-expiry range. Absence of all UB on all schedules is not decided.', '4/C12'),
  'C13': ('static: effect-set computation of nat::incoming_packet over everything reachable from the packet, exact guard-set check on the visible-endpoint rewrite, exactly-once path rule, writer tables of the endpoint views',
          'Decides that the NAT writes exactly from.address and visible_ep[0].address (with the address fixed at construction), that the latter happens for exactly the initiator\'s SYN, that every path forwards once, and that the user-visible endpoint views read the fields the NAT writes while the true endpoints have no writer. Run-time payload/ordering/timing are decided only as "no writer exists".', '4/C13'),
+ 'C14': ('static: CFG reachability between the literal branch and the configuration call, mutation-kind table on the lookup queue, handler-flow rule (every handler through the queue), must-follow re-arm rule, origin rule on the start time',
+         'Decides that literals cannot reach the configuration and complete 1 us later, that results keep configuration order and the parsed port, that the queue is FIFO and every handler passes through it, that the timer is re-armed for the front entry whenever the queue stays non-empty, that a new lookup starts from now() or the LAST queued entry, and that cancel/destructor abort everything. Completion instants are not decided.', '4/C14'),
 }
 
 NOT_YET = {}
